@@ -104,6 +104,25 @@ fn atoms_bound<T: Serialize + DeserializeOwned + ChallengeInput>(ty: &str, obj: 
                         "in_transcript": contains(&tr0, &tree.bytes[l.off..l.off + l.len]), "changed": changed, "decodes": dec}));
     }
     siblings_bound(ty, obj, out);
+    // three consecutive first-message atoms of one size (a, b, c): the objects with b := a and with b := c differ, so
+    // must their challenges (an absorber that drops a repeated neighbour maps both to (a, c))
+    let nr: Vec<_> = atoms.iter().filter(|l| !l.path.contains("response")).cloned().collect();
+    let mut tried = 0;
+    for w in nr.windows(3) {
+        if tried >= 6 { break; }
+        if !(w[0].len == w[1].len && w[1].len == w[2].len && w[0].off + w[0].len == w[1].off && w[1].off + w[1].len == w[2].off) { continue; }
+        let (a, c) = (tree.bytes[w[0].off..w[0].off + w[0].len].to_vec(), tree.bytes[w[2].off..w[2].off + w[2].len].to_vec());
+        if a == c { continue; }
+        let mut b1 = tree.bytes.clone();
+        b1[w[1].off..w[1].off + w[1].len].copy_from_slice(&a);
+        let mut b2 = tree.bytes.clone();
+        b2[w[1].off..w[1].off + w[1].len].copy_from_slice(&c);
+        if let (Ok(o1), Ok(o2)) = (bincode::deserialize::<T>(&b1), bincode::deserialize::<T>(&b2)) {
+            tried += 1;
+            out.push(json!({"ev": "atom", "type": ty, "path": format!("{} := {} versus {} := {}", w[1].path, w[0].path, w[1].path, w[2].path), "role": "nonresponse",
+                            "in_transcript": true, "changed": challenge_of(&o1).1 != challenge_of(&o2).1, "decodes": true}));
+        }
+    }
 }
 
 /// Sibling sub-objects (array elements `P.0`, `P.1`, ...) that carry first-message atoms: exchanging two of them, or
@@ -334,7 +353,25 @@ impl GameEnv {
                 let _ = m.initialize(&mut rng, &cid, cb, mb, p, &Context::new(&cbytes));
                 if let Some(c) = take_challenge_log().into_iter().last() { seen.insert(c.1); }
             }
-            out.push(json!({"ev": "ctxset", "proof": "establish", "contexts": k, "distinct_challenges": seen.len()}));
+            // long contexts built from repeated / re-hashed blocks (second preimages of a block-wise or tree-wise digest)
+            let mut long = 0usize;
+            {
+                use sha3::{Digest, Sha3_256};
+                let mut blocks: Vec<Vec<u8>> = (0..3).map(|_| { let mut b = vec![0u8; 1024]; rng.fill_bytes(&mut b); b }).collect();
+                blocks.push(blocks[2].clone());
+                let cat = |ix: &[usize]| -> Vec<u8> { ix.iter().flat_map(|&i| blocks[i].clone()).collect() };
+                let mut h2 = Sha3_256::digest(&blocks[0]).to_vec();
+                h2.extend_from_slice(&Sha3_256::digest(&blocks[1]));
+                let variants: Vec<Vec<u8>> = vec![cat(&[0, 1, 2]), cat(&[0, 1, 2, 3]), cat(&[0, 1]), h2, cat(&[0, 1, 1]), cat(&[1, 0, 2]), cat(&[0]), cat(&[0, 0])];
+                for cbytes in variants {
+                    let p: EstablishProof = bincode::deserialize(&bytes).unwrap();
+                    let _ = take_challenge_log();
+                    let _ = m.initialize(&mut rng, &cid, cb, mb, p, &Context::new(&cbytes));
+                    if let Some(c) = take_challenge_log().into_iter().last() { seen.insert(c.1); }
+                    long += 1;
+                }
+            }
+            out.push(json!({"ev": "ctxset", "proof": "establish", "contexts": k + long, "distinct_challenges": seen.len()}));
         }
         // pay
         let info = self.honest_ready(100, 50, &[]);
